@@ -83,6 +83,12 @@ BY_CLASS = {
                   'description[1.5]', 'orders[amount]', 'amount.real', '1 if amount[0] else 2', '-description',
                   'not description + 1', 'nosuchvar', '[r.nosuch for r in orders]', 'orders[0].item[9]', 'description[99]'],
     'ZeroDivision-like': ['amount / "2" > 1', 'sum(amount) > 1', 'round(description) > 1'],
+    # syntax outside the language: rejected when the file is loaded wherever expressions are checked at load; a {tag} expression is
+    # only checked when it is evaluated, where it must be one more expression that cannot be evaluated (one entry per node kind,
+    # operators included - operator nodes carry no position)
+    'disallowed-syntax': ['round(amount) // 10 == 1', 'amount ** 2 > 4', 'amount | 1 > 0', 'amount & 1 > 0', '~1 == -2', 'amount is None',
+                          '+amount > 0', 'description[0:6] == "x"', 'lambda: 1', '("a", "b") == 1',
+                          '[*orders] == 1', 'amount << 1 > 0', 'amount ^ 1 > 0', 'amount is not None', 'amount @ 2 > 0'],     # (no braces: inside a {tag} they would end it)
 }
 SITES_RULES = ['match', 'let', 'variable', 'field', 'tag', 'transform']
 SITES_LEGACY = ['legacy-pattern', 'legacy-tag']
@@ -124,6 +130,9 @@ def gen_case(rng, tier, i=None):
         forced = STRATA[(i // 3) % len(STRATA)]
     case = {'family': family, 'injected': injected, 'items': items, 'mode': rng.choice(['first_match', 'first_match', 'most_specific']),
             'failing': [], 'eval_faults': [],
+            # the budget `tally up` runs on has the supplemental `orders` source the rules query; in a third of the cases it cannot be
+            # loaded (absent, empty, unreadable): then every rule that reads it is one more rule that cannot be evaluated
+            'orders_source': rng.choice(['ok', 'ok', 'ok', 'ok', 'absent', 'empty', 'EACCES', 'header-only']),
             # the day the command runs (relative-date rules read the calendar; both leap days are days like any other)
             'today': rng.choice(['2025-06-15', '2025-06-15', '2025-12-31', '2026-01-01', '2024-02-29', '2028-02-29', '2025-02-28']),
             # now and then the statement is long: the items repeated under fresh row ids (what a failed evaluation leaves behind
@@ -133,6 +142,8 @@ def gen_case(rng, tier, i=None):
         site = rng.choice(SITES_RULES)
         if forced:
             site = forced[0]
+            if forced[1] == 'disallowed-syntax':
+                site = 'tag'      # the one place where such text gets past the loader
         m = rf.gen_rules_model(rng, rng.randint(2, 5), fields=(), sources=('Card', 'Bank'), simple=False, supplemental=None)
         for r in m['rules']:
             # biased towards matching the items
@@ -156,6 +167,8 @@ def gen_case(rng, tier, i=None):
             bad = rng.choice(BINDING_TXN)
         if forced:
             bad = rng.choice(BY_CLASS[forced[1]])
+            if forced[1] == 'disallowed-syntax':
+                bad = BY_CLASS[forced[1]][(i // 3) % len(BY_CLASS[forced[1]])]
             if site not in ('match', 'variable', 'let') and rng.random() < 0.5:
                 bad = bad.split(' == ')[0].split(' > ')[0]
         if site == 'match':
@@ -581,15 +594,29 @@ def execute(case, scratch):
             # --- the whole command: `tally up` must complete and report every row, classified as the library call classified it
             if True:
                 rules_rel = 'config/merchants.rules' if fam == 'rules' else 'config/merchant_categories.csv'
+                osrc = case.get('orders_source')
                 settings = ('year: 2025\ndata_sources:\n  - name: Card\n    file: data/stmt.csv\n'
-                            '    format: "{date:%%Y-%%m-%%d},{description},{amount},{kind}"\nmerchants_file: %s\n' % rules_rel)
+                            '    format: "{date:%Y-%m-%d},{description},{amount},{kind}"\n' +
+                            ('  - name: orders\n    file: data/orders.csv\n    format: "{date:%Y-%m-%d},{description},{amount}"\n    supplemental: true\n'
+                             if osrc else '') + 'merchants_file: ' + rules_rel + '\n')
                 if case['mode'] != 'first_match':
                     settings += 'rule_mode: %s\n' % case['mode']
                 broot = os.path.join(scratch, 'b')
-                util.write_world(broot, {'config/settings.yaml': settings, rules_rel: text,
-                                         'data/stmt.csv': '\n'.join(lines) + '\n'})
-                r = proc.run_cli(broot, ['up', 'config', '--format', 'json', '-v'],
-                                 {'net': 'down', 'eval_faults': faults or None, 'today': case.get('today', '2025-06-15')}, ctl_parent=ctlp)
+                bfiles = {'config/settings.yaml': settings, rules_rel: text, 'data/stmt.csv': '\n'.join(lines) + '\n'}
+                cplan = {'net': 'down', 'eval_faults': faults or None, 'today': case.get('today', '2025-06-15')}
+                if osrc in ('ok', 'EACCES'):
+                    bfiles['data/orders.csv'] = 'Date,Description,Amount\n' + ''.join('2025-01-0%d,%s,%s\n' % (k_ + 1, o_['item'], o_['amount'])
+                                                                                      for k_, o_ in enumerate(ROWS['orders']))
+                elif osrc == 'empty':
+                    bfiles['data/orders.csv'] = ''
+                elif osrc == 'header-only':
+                    bfiles['data/orders.csv'] = 'Date,Description,Amount\n'
+                if osrc == 'EACCES':
+                    cplan['reads'] = {'data/orders.csv': {'kind': 'oserror', 'errno': 'EACCES'}}
+                if osrc and osrc != 'ok':
+                    count['fired.supplemental-' + osrc] = count.get('fired.supplemental-' + osrc, 0) + 1
+                util.write_world(broot, bfiles)
+                r = proc.run_cli(broot, ['up', 'config', '--format', 'json', '-v'], cplan, ctl_parent=ctlp)
                 count['evaluations'] += 1
                 count['command_runs'] = count.get('command_runs', 0) + 1
                 log.append(['up', r.exit, util.sha(util.norm_text(r.out, broot))])
@@ -609,7 +636,7 @@ def execute(case, scratch):
                     if ids_seen != ids_want:
                         add('DONE', 'tally up', 'row-lost', '`tally up` on %s reported %d of %d rows; missing %s (failing %s `%s`)'
                             % (case.get('today'), len(ids_seen), len(ids_want), sorted(ids_want - ids_seen, key=int)[:5], site, case['expr']))
-                    elif file_rows is not None:
+                    elif file_rows is not None and case.get('orders_source') == 'ok':
                         lib = {}
                         per_merchant = {}
                         for g in file_rows:
